@@ -45,7 +45,7 @@ def table_dict(t):
 
 # candidate-invalid material: whether the library accepts one is observed, not assumed.
 BAD_KEYS = ["C+0", "C+01", "C+²", "c", "Xx", "C++", "+1", "C-", "C+1.0", "C +1", "", "C1", "Fe+-1", "N+1+1",
-            "C+١", "CC", "c+1", "?+1", "C+1 ", " C", "C-0", "H+00"]
+            "C+١", "CC", "c+1", "?+1", "C+1 ", " C", "C-0", "H+00", "C\n", "N+1\n", "Fe+3\n", "\nC", "C\t", "C+1\r", "?\n", "C\x00", "Cl ", "C+1\n2"]
 BAD_VALUES = [-1, 1.0, "2", None, -5, 2.5, [1]]
 ODD_VALUES = [True, False]          # bool is an int subclass: documented status unclear, only 'state consistent' is asserted
 
